@@ -1,37 +1,26 @@
-use inputlayer::{IQLEngine, Tuple, Value};
-use inputlayer::code_generator::CodeGenerator;
+use verif_harness::e2_handler::*;
+use inputlayer::{Tuple, Value};
 fn main() {
-    let progs = [
-        "q(X, Z) <- e(X, Y), f(Y, Z), X < Z\n",
-        "q(X) <- e(X, X), f(X, 2), !m(X)\n",
-        "q(X, count<Y>) <- e(X, Y), f(Y, _)\n",
-        "q(X, S) <- e(X, Y), S = X + Y * 2, S > 3\n",
-        "q(X, Y) <- e(X, Y)\nq(X, Y) <- f(Y, X), m(X)\n",
-        "q(X, W) <- e(X, Y), f(Y, Z), w(Z, W, 1), m(W)\n",
-    ];
-    for p in progs {
-        let mut e = IQLEngine::new();
-        e.parse(p).unwrap();
-        let r = e.build_ir(false);
-        println!("== {p}  build: {:?}", r.is_ok());
-        for n in e.ir_nodes() {
-            println!("{}", n.pretty_print(1));
-        }
-    }
-    // timing
-    let mut e = IQLEngine::new();
-    e.parse(progs[0]).unwrap();
-    e.build_ir(false).unwrap();
-    let ir = e.ir_nodes()[0].clone();
+    let env = Env::new("probe");
+    env.create_kg("A");
     let i = |x: i64| Value::Int64(x);
-    let t0 = std::time::Instant::now();
-    let n = 2000;
-    for _ in 0..n {
-        let mut cg = CodeGenerator::new();
-        cg.add_input("e".into(), vec![Tuple::new(vec![i(1), i(2)]), Tuple::new(vec![i(2), i(3)])]);
-        cg.add_input("f".into(), vec![Tuple::new(vec![i(2), i(3)])]);
-        let r = cg.execute(&ir).unwrap();
-        assert_eq!(r.len(), 1);
+    let k: i64 = std::env::args().nth(2).and_then(|s| s.parse().ok()).unwrap_or(7);
+    let mut rows = vec![];
+    for j in 0..k { rows.push(Tuple::new(vec![i(1), i(2 + j)])); rows.push(Tuple::new(vec![i(2 + j), i(101 + j)])); }
+    eprintln!("inserting {} rows", rows.len());
+    env.insert("A", "e", rows);
+    eprintln!("inserted");
+    let which = std::env::args().nth(1).unwrap_or("0".into());
+    let rules: Vec<&str> = match which.as_str() {
+        "0" => vec!["+r(X, Y) <- e(X, Y)", "+r(X, Z) <- r(X, Y), e(Y, Z)"],
+        "1" => vec!["+r(X, Y) <- e(X, Y)", "+r(X, Z) <- e(X, Y), r(Y, Z)"],
+        _ => vec!["+h(X, Z) <- e(X, Y), e(Y, Z)"],
+    };
+    for r in rules { eprintln!("registering {r}"); println!("{:?}", messages(&env.query_program(Some("A"), r))); }
+    let rel = if which == "2" { "h" } else { "r" };
+    for q in [format!("?{rel}(1, 101)"), format!("?{rel}(1, Q1)"), format!(".why ?{rel}(1, 101)")] {
+        let t0 = std::time::Instant::now();
+        let r = env.query_program(Some("A"), &q);
+        println!("== {q}: {:?} rows {:?} trees {} in {:?}", r.as_ref().err(), r.as_ref().map(|x| x.rows.len()).unwrap_or(0), r.as_ref().map(|x| x.proof_trees.as_ref().map(|t| t.len()).unwrap_or(0)).unwrap_or(0), t0.elapsed());
     }
-    println!("per exec {:?}", t0.elapsed() / n);
 }
